@@ -107,6 +107,41 @@ func runC16(c *rt.Ctx) {
 				c.Violation("C16 size-formula", fmt.Sprintf("key length %d: data entry value length %d, expected %d", kl, dl, slabBudget-71-kl), sc)
 			}
 		}
+		// the same discipline after the value has been re-written by append and by prepend
+		if clause == "" && len(r.Findings) == 0 && vlen <= 12*payloadFor(kl) && vlen > 0 {
+			for _, kind := range []string{"append", "prepend", "append"} {
+				ops = append(ops, wire.Op{Kind: kind, Key: key, VGen: true, VLen: 5, VSeed: vlen, Spare: spare})
+				vlen += 5
+				sc2 := ChunkScenario{Harness: "C16", Ops: ops}
+				var r2 *ChunkResult
+				var cl2, d2 string
+				var dl2 int
+				InBubble(c.T, func() {
+					r2 = RunChunk(sc2, ChunkOpts{KeepLog: true})
+					// only the requests of the last command: the log holds all commands
+					n := 0
+					for i := len(r2.Store.Log) - 1; i >= 0; i-- {
+						if r2.Store.Log[i].Op == fakemc.OpGet { // the metadata read that starts an append
+							n = i
+							break
+						}
+					}
+					cl2, d2, dl2 = checkChunkDiscipline(key, vlen, r2.Store.Log[n:])
+				})
+				c.Eval(1)
+				for _, f := range r2.Findings {
+					c.Violation(f.Sig, f.What, sc2)
+				}
+				if cl2 != "" {
+					c.Violation("C16 "+cl2+" after-"+kind, fmt.Sprintf("key length %d, value length %d after %s: %s", kl, vlen, kind, d2), sc2)
+					break
+				}
+				if dl2 >= 0 && dl2 != slabBudget-71-kl {
+					c.Violation("C16 size-formula after-"+kind, fmt.Sprintf("key length %d: after %s data entries have %d bytes, expected %d", kl, kind, dl2, slabBudget-71-kl), sc2)
+					break
+				}
+			}
+		}
 		if kl%50 == 0 && n == 3 {
 			c.Sample(map[string]interface{}{"key_len": kl, "value_len": vlen, "chunks": n, "data_entry_value_len": dl, "backend_key_len_max": kl + 1 + len(strconv.Itoa(n))})
 		}
